@@ -76,6 +76,10 @@ let eval_line (fields : string list) : (string * string) list =
           if int_of_n b0 <> 1 || rest <> M.spec_enc ti x then fail "oracle.C15" "Some is not selector 1 followed by the value"
         | (M.TUnion _ | M.TOption _), _, [] -> fail "oracle.C15" "empty encoding of a union"
         | _ -> ());
+       (match t with
+        | M.TUnion _ | M.TOption _ ->
+          if rt = "fail" && M.rt_type t then fail "oracle.C15" "a declared variant's encoding (selector = declaration index) does not decode to that variant"
+        | _ -> ());
        (* C19: a map / set encodes exactly as the list of its (ascending) entries *)
        (match t, v with
         | M.TSet a, M.VList es ->
@@ -121,6 +125,21 @@ let eval_line (fields : string list) : (string * string) list =
                | M.VSome _ -> if s <> 1 then fail "oracle.C15" "Some decoded from a selector other than 1"
                | _ -> ())
          | _ -> ()));
+     (match t with
+      | M.TTransEnum ts ->
+        (* composition rule: the first variant whose own decoder accepts (the variants' decoders are
+           tied to the crate separately, as catalogue types of their own) *)
+        let rec first i = function
+          | [] -> None
+          | ti :: r -> (match M.dec ti bs with M.Ok x -> Some (M.VUnion (nat_of_int i, x)) | _ -> first (i + 1) r) in
+        let expect = first 0 ts in
+        (match crate, expect with
+         | ROk (v, _, _), Some e -> if v <> e then (fail "oracle.C08" "transparent enum did not decode to the first variant that accepts"; fail "oracle.C04" "transparent enum did not decode to the first variant that accepts")
+         | RErr, None -> ()
+         | RPanic, _ -> ()
+         | _, _ -> fail "oracle.C08" "transparent enum: accept/reject differs from 'first variant that accepts'";
+                   fail "oracle.C04" "transparent enum: accept/reject differs from 'first variant that accepts'")
+      | _ -> ());
      (match crate with
       | RPanic -> fail "oracle.C05" "decoding panicked"
       | RErr -> ()
@@ -261,9 +280,10 @@ let eval_line (fields : string list) : (string * string) list =
         if res <> "err" then fail "oracle.C16" "announced count exceeds the limit but decoding did not fail";
         if calls <> "-" && calls <> "0" then fail "oracle.C16" "items were decoded although the limit was exceeded"
       | _ -> ());
+     if res = "panic" then fail "oracle.C16" "list decoding panicked instead of returning an error";
      (match c with
-      | M.CRefusing -> if bs <> [] && String.length res >= 2 && String.sub res 0 2 = "ok" then
-          fail "oracle.C16" "refusing collection produced a value"
+      | M.CRefusing -> if res <> "err" then
+          fail "oracle.C16" "a collection that refuses must yield an error (never a value, never a panic)"
       | _ -> ())
    | ["lvsame"; _ts; _hex; maxl; res_lim; res_unlim; cnt] ->
      (* limit >= announced count: same as unlimited *)
